@@ -11,6 +11,9 @@ CONSTANTS
   Family = "term"
   DropK1 = FALSE
   Queries <- MCQueries
+  FixEmptySnapshot = FALSE
+  FixBoolAdvance = FALSE
+  FixShouldMin = FALSE
   FirstAdvanceOK <- FirstAdvAlways
 VIEW View
 INVARIANT NoPanic
